@@ -52,6 +52,7 @@
 #include <cstring>
 #include <cctype>
 #include "vh.h"
+#include "refwild.h"   // independent reference for the documented simple-wildcard syntax (C15); used for OP_SIMPLE_WILDCARD_MATCH[_IGNORECASE] operands
 
 namespace reffilter {
 using namespace muscle;
@@ -95,7 +96,7 @@ static inline bool IsMulti(int k) { return k >= FK_MINMATCH && k <= FK_XOR; }
 // pattern AST for the wildcard / regex string operators (only what StringMatcher.h documents)
 enum { PT_LIT = 0, PT_ANY1, PT_ANYN, PT_CLASS };
 struct PTok { int kind; char c; std::string set; PTok() : kind(PT_LIT), c('a') {} };
-enum { PAT_NONE = 0, PAT_GLOB, PAT_RANGE };   // PAT_RANGE: "<lo-hi>" numeric range (simple syntax only)
+enum { PAT_NONE = 0, PAT_GLOB, PAT_RANGE, PAT_WILD };   // PAT_RANGE: "<lo-hi>" numeric range (simple syntax only); PAT_WILD: a refwild::Pattern AST (full documented simple syntax incl. escapes, ~, <ranges>, comma lists, groups, classes)
 
 struct AFilter {
    int kind;
@@ -109,6 +110,7 @@ struct AFilter {
    uint32 threshold;                      // minmatch / maxmatch
    bool hasChild; AMsgRef defMsg;         // message: kids[0] is the child filter when hasChild
    int patKind; std::vector<PTok> pat; bool patNeg; bool patHasLo, patHasHi; uint32 patLo, patHi;   // string ops 24..27
+   std::shared_ptr<refwild::Pattern> wild;   // PAT_WILD (ops 24 and 26); value.s = refwild::Print(*wild)
    std::vector<AFilter> kids;
    AFilter() : kind(FK_WHAT), index(0), vt(VT_INT32), op(0), maskOp(0), hasDef(false), nullValue(false), typeCode(B_ANY_TYPE), lo(0), hi(0), threshold(0), hasChild(false),
                patKind(PAT_NONE), patNeg(false), patHasLo(false), patHasHi(false), patLo(0), patHi(0) {}
@@ -176,7 +178,7 @@ static inline std::string PatToString(const AFilter & f, bool regexSyntax)
    if (regexSyntax) o += "^"; else if (f.patNeg) o += "~";
    for (size_t i = 0; i < f.pat.size(); i++) {
       const PTok & t = f.pat[i];
-      switch (t.kind) { case PT_LIT: o += t.c; break; case PT_ANY1: o += regexSyntax ? "." : "?"; break; case PT_ANYN: o += regexSyntax ? ".*" : "*"; break; default: o += "[" + t.set + "]"; break; }
+      switch (t.kind) { case PT_LIT: if (strchr(".*?+[](){}|\\^$", t.c)) o += '\\'; o += t.c; break; case PT_ANY1: o += regexSyntax ? "." : "?"; break; case PT_ANYN: o += regexSyntax ? ".*" : "*"; break; default: o += "[" + t.set + "]"; break; }
    }
    if (regexSyntax) o += "$";
    return o;
@@ -207,6 +209,17 @@ static inline std::string NativeBytes(int vt, const AVal & v)
    return std::string(b, n);
 }
 
+// letters -> [xX] classes, in place; false when the pattern has a class or an escaped letter (ToCaseInsensitive's effect on those is not documented)
+static inline bool FoldSeq(refwild::Seq & q)
+{
+   for (size_t i = 0; i < q.size(); i++) {
+      refwild::Node & n = q[i];
+      if (n.k == refwild::Node::CLASS) return false;
+      if (n.k == refwild::Node::GROUP) { for (size_t a = 0; a < n.alts.size(); a++) if (!FoldSeq(n.alts[a])) return false; }
+      else if (n.k == refwild::Node::LIT && isalpha(n.c)) { if (n.esc) return false; const unsigned char lo = (unsigned char)tolower(n.c), up = (unsigned char)toupper(n.c); n.k = refwild::Node::CLASS; n.neg = false; n.cls.clear(); n.cls.push_back(refwild::ClassItem(lo, lo)); n.cls.push_back(refwild::ClassItem(up, up)); }
+   }
+   return true;
+}
 static inline Tri EvalStringOp(const AFilter & f, const std::string & subject, EvalCtx & c)
 {
    uint8 op = f.op; std::string s = subject, v = f.value.s;
@@ -215,6 +228,15 @@ static inline Tri EvalStringOp(const AFilter & f, const std::string & subject, E
       if (v.empty()) return Unspec(c, "empty_pattern");   // (SetPattern documents "will not match any strings", the matcher compiles "^()$": StringMatcher is C15's subject, here an empty needle)
       if (f.patKind == PAT_NONE) return Unspec(c, "pattern_outside_generated_grammar");
       const bool fold = (op >= 26);
+      if (f.patKind == PAT_WILD) {
+         if (!f.wild || (op != 24 && op != 26)) return Unspec(c, "pattern_outside_generated_grammar");
+         if (f.wild->numeric) { if (refwild::NumericCorner(*f.wild, s)) return Unspec(c, "numeric_range_corner"); return B2T(refwild::Match(*f.wild, s)); }
+         if (f.wild->alts.empty()) return Unspec(c, "empty_pattern");
+         if (!fold) return B2T(refwild::Match(*f.wild, s));
+         // IGNORECASE = StringMatcher(ToCaseInsensitive(pattern)): every letter becomes the class of its two cases (documented for letters only)
+         refwild::Pattern fp = *f.wild; for (size_t i = 0; i < fp.alts.size(); i++) if (!FoldSeq(fp.alts[i])) return Unspec(c, "ignorecase_wildcard_with_class_or_escaped_letter");
+         return B2T(refwild::Match(fp, s));
+      }
       if (f.patKind == PAT_RANGE) {
          if (s.empty() || s.find_first_not_of("0123456789") != std::string::npos) return T_FALSE;
          if (s.size() > 1 && s[0] == '0') return Unspec(c, "numeric_range_subject_with_leading_zero");
@@ -575,6 +597,23 @@ static inline std::string NearStr(Rng & g, const std::string & v, bool bytes)
 // a subject for a generated pattern: a string the AST matches (then sometimes damaged)
 static inline std::string SamplePattern(Rng & g, const AFilter & f)
 {
+   if (f.patKind == PAT_WILD && f.wild) {
+      const refwild::Pattern & p = *f.wild;
+      if (p.numeric) {
+         if (p.ranges.empty()) return "0";
+         const refwild::NumRange & r = p.ranges[g.R((uint32)p.ranges.size())]; const uint64_t lo = r.hasLo ? r.lo : 0, hi = r.hasHi ? r.hi : lo + 40;
+         switch (g.R(8)) { case 0: return vh::fmt("%llu", (unsigned long long)lo); case 1: return vh::fmt("%llu", (unsigned long long)hi); case 2: return vh::fmt("%llu", (unsigned long long)(lo ? lo - 1 : 0)); case 3: return vh::fmt("%llu", (unsigned long long)(hi + 1)); case 4: return vh::fmt("%llua", (unsigned long long)lo); case 5: return f.value.s; case 6: return vh::fmt("0%llu", (unsigned long long)lo); default: return vh::fmt("%llu", (unsigned long long)(lo + g.R((uint32)(hi >= lo ? hi - lo + 1 : 1)))); }
+      }
+      if (p.alts.empty()) return GenStr(g, true);
+      std::string s; refwild::SampleSeq(p.alts[g.R((uint32)p.alts.size())], s, g, std::string("aAbB9*"), 2);   // a string the pattern denotes (for an escape-only pattern: the unescaped text)
+      switch (g.R(9)) {
+         case 0: case 1: return f.value.s;                 // the pattern text itself (differs from what it denotes as soon as it holds an escape or a wildcard)
+         case 2: return NearStr(g, s, false);              // near miss
+         case 3: for (size_t i = 0; i < s.size(); i++) if (isalpha((unsigned char)s[i]) && g.R(2)) s[i] = (char)(s[i] ^ 0x20); return s;
+         case 4: { std::string t = f.value.s; if (!t.empty() && t[0] == '~') t.erase(0, 1); return t; }
+         default: for (size_t i = 0; i < s.size(); i++) if (s[i] == 0) s[i] = 'a'; return s;
+      }
+   }
    if (f.patKind == PAT_RANGE) {
       const uint32 lo = f.patHasLo ? f.patLo : 0, hi = f.patHasHi ? f.patHi : lo + 40;
       switch (g.R(7)) { case 0: return vh::fmt("%u", lo); case 1: return vh::fmt("%u", hi); case 2: return vh::fmt("%u", lo ? lo - 1 : 0); case 3: return vh::fmt("%u", hi + 1); case 4: return vh::fmt("%ua", lo); case 5: return GenStr(g, false); default: return vh::fmt("%u", lo + g.R(hi - lo + 1)); }
@@ -597,8 +636,59 @@ struct GenOptions {
 };
 static inline bool Odd(Rng & g, const GenOptions & o) { return o.unspecOneIn && g.R(o.unspecOneIn) == 0; }
 
+// a sequence of the documented simple syntax.  style 0: plain literals; 1: literals incl. escaped metacharacters, no live wildcard; 2: escaped
+// metacharacters AND live wildcards; 3: live wildcards, no escapes
+static inline refwild::Seq GenWildSeq(Rng & g, int style, bool allowClass, int depth)
+{
+   using refwild::Node;
+   refwild::Seq q; const uint32 n = 1 + g.R(5); bool haveMeta = false, haveWild = false;
+   for (uint32 i = 0; i < n || (style == 1 && !haveMeta) || (style == 2 && (!haveMeta || !haveWild)); i++) {
+      if (q.size() > 9) break;
+      const bool wantMeta = (style == 1 || style == 2) && (g.R(3) == 0 || (i + 1 >= n && !haveMeta));
+      const bool wantWild = (style == 2 || style == 3) && !wantMeta && (g.R(3) == 0 || (i + 1 >= n && !haveWild));
+      if (wantMeta) { static const char meta[] = "*?,()[]|\\{}^$<~`"; q.push_back(Node::Lit((unsigned char)meta[g.R(sizeof(meta) - 1)])); haveMeta = true; }   // (< ~ ` need their backslash only in first position: the printer knows)
+      else if (wantWild) {
+         const uint32 r = g.R(allowClass ? 10 : 7);
+         if (r < 3) { if (!q.empty() && q.back().k == Node::STAR) q.push_back(Node::Any1()); else q.push_back(Node::Star()); }
+         else if (r < 5) q.push_back(Node::Any1());
+         else if (r < 7) { if (depth >= 1) q.push_back(Node::Any1()); else { Node x; x.k = Node::GROUP; const uint32 na = 2 + g.R(2); for (uint32 a = 0; a < na; a++) x.alts.push_back((a + 1 == na && g.R(4) == 0) ? refwild::Seq() : GenWildSeq(g, g.R(3) ? 0 : style, allowClass, depth + 1)); q.push_back(x); } }
+         else { Node x; x.k = Node::CLASS; x.neg = g.R(5) == 0; switch (g.R(4)) { case 0: x.cls.push_back(refwild::ClassItem('a', 'c')); break; case 1: x.cls.push_back(refwild::ClassItem('a', 'a')); x.cls.push_back(refwild::ClassItem('B', 'B')); break; case 2: x.cls.push_back(refwild::ClassItem('0', '9')); break; default: x.cls.push_back(refwild::ClassItem('A', 'B')); x.cls.push_back(refwild::ClassItem('9', '9')); break; } q.push_back(x); }
+         haveWild = true;
+      }
+      else { static const char plain[] = "aAbBgrn9-. "; const unsigned char ch = (unsigned char)plain[g.R(g.R(4) ? 8 : 11)]; q.push_back(Node::Lit(ch, !isalnum(ch) && g.R(4) == 0)); }
+   }
+   return q;
+}
+static inline void GenWildPattern(Rng & g, AFilter & f)
+{
+   const bool fold = (f.op == 26);
+   std::shared_ptr<refwild::Pattern> p(new refwild::Pattern);
+   const uint32 r = g.R(14);
+   if (r == 0) {   // <ranges>
+      p->numeric = true; const uint32 nr = 1 + (g.R(3) == 0 ? g.R(3) : 0);
+      for (uint32 i = 0; i < nr; i++) { refwild::NumRange x; x.lo = g.R(30); x.hi = x.lo + g.R(12); x.hasLo = g.R(5) != 0; x.hasHi = g.R(5) != 0; if (!x.hasLo && !x.hasHi && g.R(4)) x.hasLo = true; if (g.R(5) == 0) { x.hasLo = x.hasHi = true; x.hi = x.lo; } p->ranges.push_back(x); }
+   } else {
+      const int style = r < 5 ? 1 : r < 9 ? 2 : r < 12 ? 3 : 0;   // escape-only patterns are as frequent as the others: a matcher short-cut for "unique" patterns must unescape
+      const uint32 na = g.R(6) == 0 ? 2 + g.R(2) : 1;
+      for (uint32 a = 0; a < na; a++) p->alts.push_back(GenWildSeq(g, a == 0 ? style : (int)g.R(4), !fold, 0));
+      p->negate = g.R(7) == 0;
+   }
+   f.wild = p; f.patKind = PAT_WILD; f.pat.clear(); f.patNeg = false; f.value.s = refwild::Print(*p);
+}
+// classification of a PAT_WILD operand (observation counters): 1 = escapes only (no live wildcard), 2 = escapes and live wildcards, 3 = wildcards only, 0 = plain text
+static inline bool SeqHasEscape(const refwild::Seq & q) { for (size_t i = 0; i < q.size(); i++) { if (q[i].k == refwild::Node::LIT && (q[i].esc || refwild::NeedsEscapeAnywhere(q[i].c))) return true; for (size_t a = 0; a < q[i].alts.size(); a++) if (SeqHasEscape(q[i].alts[a])) return true; } return false; }
+static inline bool SeqHasWildcard(const refwild::Seq & q) { for (size_t i = 0; i < q.size(); i++) if (q[i].k != refwild::Node::LIT) return true; return false; }
+static inline int WildOperandClass(const AFilter & f)
+{
+   if (f.patKind != PAT_WILD || !f.wild || f.wild->numeric) return -1;
+   bool esc = false, wild = f.wild->alts.size() > 1;
+   for (size_t i = 0; i < f.wild->alts.size(); i++) { if (SeqHasEscape(f.wild->alts[i])) esc = true; if (SeqHasWildcard(f.wild->alts[i])) wild = true; }
+   std::string lit; if (!esc && refwild::IsPureLiteral(*f.wild, &lit) && refwild::Print(*f.wild) != lit) esc = true;   // first-position escapes of < ~ `
+   return esc ? (wild ? 2 : 1) : (wild ? 3 : 0);
+}
 static inline void GenPattern(Rng & g, AFilter & f, const GenOptions & o)
 {
+   if ((f.op == 24 || f.op == 26) && g.R(5) != 0) { GenWildPattern(g, f); if (Odd(g, o) && g.R(3) == 0) { f.value.s.clear(); f.patKind = PAT_NONE; f.wild.reset(); } return; }
    const bool regexSyntax = (f.op == 25 || f.op == 27), fold = (f.op >= 26);
    f.pat.clear(); f.patNeg = false; f.patKind = PAT_GLOB;
    if (!regexSyntax && g.R(6) == 0) {   // numeric range "<lo-hi>" (simple syntax only; no letters, so the IGNORECASE variant is the same pattern)
@@ -608,7 +698,7 @@ static inline void GenPattern(Rng & g, AFilter & f, const GenOptions & o)
       const uint32 n = 1 + g.R(5);
       for (uint32 i = 0; i < n; i++) {
          PTok t; const uint32 r = g.R(10);
-         if (r < 5) { t.kind = PT_LIT; t.c = "aAbBgrn9"[g.R(8)]; }
+         if (r < 5) { t.kind = PT_LIT; t.c = (!fold && g.R(6) == 0) ? "*.?[$"[g.R(5)] : "aAbBgrn9"[g.R(8)]; }   // (a metacharacter as a literal is printed with its backslash)
          else if (r < 7) t.kind = PT_ANY1;
          else if (r < 9) { if (!f.pat.empty() && f.pat.back().kind == PT_ANYN) { t.kind = PT_ANY1; } else t.kind = PT_ANYN; }
          else if (!fold) { t.kind = PT_CLASS; t.set = g.R(2) ? "ab" : (g.R(2) ? "aA9" : "Bb"); }
